@@ -349,3 +349,25 @@ package ss2022
 //@   requires !isnil(s)
 //@   modifies nothing
 //@   ensures result == s.info
+
+// ---------------------------------------------------------------------------
+// User keys (property C08).
+// ---------------------------------------------------------------------------
+
+// The identity hash is a function of the key's bytes (BLAKE3 itself is not modelled).
+//@ uninterp pskHashOf(key string) [16]byte
+
+//@ func PSKHash
+//@   trusted
+//@   modifies nothing
+//@   ensures result == pskHashOf(string(psk))
+
+//@ func NewServerUserCipherConfig
+//@   modifies nothing
+//@   ensures c.Name == name && samearray(c.UserCipherConfig.PSK, psk) && len(c.UserCipherConfig.PSK) == len(psk)
+
+//@ func (*CredStore).LookupUser
+//@   requires !isnil(s)
+//@   modifies nothing
+//@   ensures result1 == has(s.ulm, uPSKHash)
+//@   ensures result1 ==> result0 == s.ulm[uPSKHash]
